@@ -297,7 +297,7 @@ def native_limit_phase(ck, v):
     """cmdline / filename / env / env_all build their value themselves: argument vectors, paths and environments whose natural text is
     limit-1 / limit / limit+1 / far above, with the boundary falling at an argument end, on a separator, or inside an argument."""
     cases = []
-    for dsmax in (255, 2047):
+    for dsmax in (255, 2047, 5000):      # below, at and ABOVE the default limit (a buffer sized for the default must grow with the configured one)
         for total in (dsmax - 4, dsmax - 1, dsmax, dsmax + 1, dsmax + 200):
             shapes = {
                 'one': [b'a' * total],
